@@ -43,7 +43,7 @@ def _s(x):
     return struct.pack(">h", len(b)) + b
 
 
-KINDS = ["metadata5", "metadata1", "delrec2", "listreass0", "findco0", "findco1", "heartbeat1", "heartbeat0"]
+KINDS = ["metadata5", "metadata1", "delrec2", "listreass0", "findco0", "findco1", "heartbeat1", "heartbeat0", "listgroups1"]
 FLEX = {"delrec2", "listreass0"}
 
 
@@ -60,6 +60,8 @@ def response_body(kind, marker):
         return struct.pack(">hi", 0, marker) + _s("h") + struct.pack(">i", 9092)
     if kind == "findco1":    # throttle, error_code, error_message, node_id, host, port
         return struct.pack(">ih", marker, 0) + _s(None) + struct.pack(">i", 3) + _s("h") + struct.pack(">i", 9092)
+    if kind == "listgroups1":  # throttle, error_code, groups[(group, protocol_type)]: the body ENDS with a string
+        return struct.pack(">ihi", marker, 0, 1) + _s("grp") + _s("consumer")
     if kind == "heartbeat1":
         return struct.pack(">ih", marker, 0)
     if kind == "heartbeat0":
@@ -68,7 +70,7 @@ def response_body(kind, marker):
 
 
 def marker_of(kind, resp):
-    if kind in ("metadata5", "delrec2", "listreass0", "findco1", "heartbeat1"):
+    if kind in ("metadata5", "delrec2", "listreass0", "findco1", "heartbeat1", "listgroups1"):
         return resp.throttle_time_ms
     if kind == "metadata1":
         return resp.controller_id
@@ -96,11 +98,14 @@ def make_request(kind):
         return ListPartitionReassignmentsRequest(1000, [], {})
     if kind in ("findco0", "findco1"):
         return FindCoordinatorRequest("g", 0)
+    if kind == "listgroups1":
+        from aiokafka.protocol.admin import ListGroupsRequest
+        return ListGroupsRequest()
     return HeartbeatRequest("g", 1, "m")
 
 
 VERSIONS = {"metadata5": (3, 5), "metadata1": (3, 1), "delrec2": (21, 2), "listreass0": (46, 0),
-            "findco0": (10, 0), "findco1": (10, 1), "heartbeat1": (12, 1), "heartbeat0": (12, 0)}
+            "findco0": (10, 0), "findco1": (10, 1), "heartbeat1": (12, 1), "heartbeat0": (12, 0), "listgroups1": (16, 1)}
 
 
 def bad_corr(f, corr, prev):
@@ -277,7 +282,7 @@ def gen_case(rng: random.Random, idx):
         if kind == "corr_random":
             f["value"] = rng.randrange(2**31)
         if kind == "truncated_body":
-            f["keep"] = rng.randrange(0, 4)
+            f["keep"] = rng.randrange(0, 4) if rng.random() < 0.4 else rng.randrange(0, 64)    # taken modulo the body length
         if kind == "bad_size":
             f["value"] = rng.choice([-1, -2**31, 2**31 - 1, 2**30])
         if kind in ("eof_at", "reset_at"):
